@@ -33,6 +33,7 @@ type Ctx struct {
 	hmerge  map[int][]hmEntry
 	hmCache map[string]string
 	nhavoc  int
+	shl1    map[string]string // terms of the form 1<<s (int mode) -> s
 }
 
 func newCtx(eng *Engine, mode string) *Ctx {
@@ -649,15 +650,39 @@ func (c *Ctx) arith(op string, x, y string, t types.Type, yT types.Type) (term s
 			return r, rng(r), "overflow"
 		}
 		if kx, ok := constInt(x); ok && kx.Cmp(big.NewInt(1)) == 0 {
+			// 1 << y: Go defines shifts by >= width as 0 (no panic for unsigned counts)
 			c.declPow2()
-			r := fmt.Sprintf("(pow2 %s)", y)
-			return r, and(fmt.Sprintf("(<= 0 %s)", y), fmt.Sprintf("(< %s %d)", y, bits)), "overflow"
+			top := pow2(uint(bits - 1)).String()
+			if signed {
+				top = "(- " + top + ")"
+			}
+			r := fmt.Sprintf("(ite (and (<= 0 %s) (< %s %d)) (pow2 %s) (ite (= %s %d) %s 0))", y, y, bits-1, y, y, bits-1, top)
+			r = c.define("shl1", r, "Int")
+			if c.shl1 == nil {
+				c.shl1 = map[string]string{}
+			}
+			c.shl1[r] = y
+			return r, "", ""
 		}
 	case ">>":
 		if k, ok := constInt(y); ok && k.IsInt64() && k.Int64() >= 0 && k.Int64() < 64 {
 			return fmt.Sprintf("(div %s %s)", x, pow2(uint(k.Int64())).String()), "", ""
 		}
 	case "&":
+		// K & (1 << s): expands over the set bits of the constant K
+		for _, p := range [][2]string{{x, y}, {y, x}} {
+			if s, ok := c.shl1[p[0]]; ok {
+				if k, ok2 := constInt(p[1]); ok2 && k.Sign() >= 0 && k.BitLen() <= 63 && popcount(k) <= 16 {
+					r := "0"
+					for b := k.BitLen() - 1; b >= 0; b-- {
+						if k.Bit(b) == 1 {
+							r = fmt.Sprintf("(ite (= %s %d) %s %s)", s, b, pow2(uint(b)).String(), r)
+						}
+					}
+					return r, "", ""
+				}
+			}
+		}
 		// x & (2^k-1)  -> x mod 2^k for x >= 0 (unsigned or known non-negative)
 		for _, p := range [][2]string{{x, y}, {y, x}} {
 			if k, ok := constInt(p[1]); ok && k.Sign() >= 0 {
